@@ -120,6 +120,7 @@ def foreachL (f : Val → GoM Unit) : Nat → LV → HM Unit
     IM.liftG (f h)
     foreachL f fuel t
   | _, .seq xs => seqForeach f xs
+  | _, .nilIface => IM.panic LL.nilDeref
   | fuel + 1, .adaptor hc tc => foreachCursor f fuel (.adaptor hc tc)
 
 /-- the method `l.ToSeq()` by representation (`Cons` and `ListAdaptor` append inside `Foreach`) -/
@@ -128,6 +129,7 @@ def toSeqM : Nat → LV → List Val → HM (List Val)
   | _, .nil, ret => pure ret
   | fuel + 1, .cons h t, ret => toSeqM fuel t (ret ++ [h])
   | _, .seq xs, ret => pure (ret ++ xs)
+  | _, .nilIface, _ => IM.panic LL.nilDeref
   | fuel + 1, .adaptor hc tc, ret => LL.toSeq fuel (.adaptor hc tc) ret
 
 /-! ## the cursor loops `ToGoMap`, `ToMap`, `ToSet`, `ToGoSet` -/
